@@ -96,7 +96,7 @@ func (g *streamGen) GenerateRequests(ctx context.Context, r *scan.Range) (<-chan
 		defer close(out)
 		for i := 1; i <= g.n; i++ {
 			id := g.base + uint32(i)
-			req := &scan.Request{SrcIP: g.srcIP, SrcMAC: g.srcMAC, DstIP: rigIDToIP(id), DstPort: g.port}
+			req := &scan.Request{SrcIP: g.srcIP, SrcMAC: g.srcMAC, DstMAC: net.HardwareAddr{2, 0, 0, 0, 0, 9}, DstIP: rigIDToIP(id), DstPort: g.port}
 			if g.isErr(i) {
 				e := &rigErr{"request", id}
 				g.mu.Lock()
@@ -353,4 +353,267 @@ func (l *countingLimiter) Take() time.Time {
 	l.takes = append(l.takes, s)
 	l.mu.Unlock()
 	return time.Time{}
+}
+
+// ---------------------------------------------------------------------------
+// Generic (application) engine side: scanner, results, output writer, logger, engine spy.
+
+type rigResult struct {
+	id uint32
+}
+
+func (r *rigResult) String() string { return fmt.Sprintf("result %d", r.id) }
+func (r *rigResult) ID() string     { return fmt.Sprintf("%d", r.id) }
+func (r *rigResult) MarshalJSON() ([]byte, error) {
+	return []byte(fmt.Sprintf(`{"scan":"rig","id":%d,"pad":"%s"}`, r.id, "xxxxxxxxxxxxxxxxxxxxxxxxxxxxxxxx"[:r.id%32])), nil
+}
+
+const (
+	outNegative = 0
+	outPositive = 1
+	outError    = 2
+)
+
+// recScanner: outcome and latency of a probe are functions of (seed, id).
+type recScanner struct {
+	seed        uint64
+	posPermille int
+	errPermille int
+	maxLatency  time.Duration
+	clock       *rigClock
+	onStart     func(k int, ctx context.Context) // inside the k-th probe (1-based), before the latency
+	onEnd       func(k int)                      // inside the k-th probe to finish, before it returns
+	honourCtx   bool                             // return early with ctx.Err() when cancelled during the latency
+
+	inflight    int32
+	maxInflight int32
+	nstart      int32
+	nend        int32
+
+	mu       sync.Mutex
+	calls    map[uint32]int
+	outcome  map[uint32]int
+	errs     map[uint32]error
+	startSeq []int64
+	endSeq   []int64
+	startT   []time.Time
+}
+
+func newRecScanner(seed uint64, posPermille, errPermille int, maxLatency time.Duration, clock *rigClock) *recScanner {
+	return &recScanner{seed: seed, posPermille: posPermille, errPermille: errPermille, maxLatency: maxLatency, clock: clock,
+		calls: map[uint32]int{}, outcome: map[uint32]int{}, errs: map[uint32]error{}}
+}
+
+func (s *recScanner) decide(id uint32) int {
+	h := int(rigHash(s.seed, id, 11) % 1000)
+	switch {
+	case h < s.posPermille:
+		return outPositive
+	case h < s.posPermille+s.errPermille:
+		return outError
+	}
+	return outNegative
+}
+
+func (s *recScanner) Scan(ctx context.Context, r *scan.Request) (scan.Result, error) {
+	cur := atomic.AddInt32(&s.inflight, 1)
+	for {
+		m := atomic.LoadInt32(&s.maxInflight)
+		if cur <= m || atomic.CompareAndSwapInt32(&s.maxInflight, m, cur) {
+			break
+		}
+	}
+	k := int(atomic.AddInt32(&s.nstart, 1))
+	id := uint32(0)
+	if ip4 := r.DstIP.To4(); ip4 != nil {
+		id = binary.BigEndian.Uint32(ip4)
+	}
+	now := time.Now()
+	s.mu.Lock()
+	s.calls[id]++
+	s.startSeq = append(s.startSeq, s.clock.tick())
+	s.startT = append(s.startT, now)
+	s.mu.Unlock()
+	if s.onStart != nil {
+		s.onStart(k, ctx)
+	}
+	if s.maxLatency > 0 {
+		d := time.Duration(rigHash(s.seed, id, 12) % uint64(s.maxLatency))
+		if rigHash(s.seed, id, 13)%4 == 0 {
+			d = 0
+			runtime.Gosched()
+		}
+		if d > 0 {
+			if s.honourCtx {
+				select {
+				case <-ctx.Done():
+				case <-time.After(d):
+				}
+			} else {
+				time.Sleep(d)
+			}
+		}
+	}
+	out := s.decide(id)
+	var res scan.Result
+	var err error
+	switch out {
+	case outPositive:
+		res = &rigResult{id: id}
+	case outError:
+		err = &rigErr{"probe", id}
+	}
+	ke := int(atomic.AddInt32(&s.nend, 1))
+	if s.onEnd != nil {
+		s.onEnd(ke)
+	}
+	s.mu.Lock()
+	s.outcome[id] = out
+	if err != nil {
+		s.errs[id] = err
+	}
+	s.endSeq = append(s.endSeq, s.clock.tick())
+	s.mu.Unlock()
+	atomic.AddInt32(&s.inflight, -1)
+	return res, err
+}
+
+// recOut records every Write call separately (merge/split detection).
+type recOut struct {
+	clock   *rigClock
+	delay   time.Duration
+	stallAt  int           // the stallAt-th write (1-based) blocks for stallFor: a momentary stall of stdout
+	stallFor time.Duration
+	onWrite func(k int)
+	mu      sync.Mutex
+	writes  [][]byte
+	seqs    []int64
+}
+
+func (o *recOut) Write(p []byte) (int, error) {
+	cp := append([]byte(nil), p...)
+	if o.delay > 0 {
+		time.Sleep(o.delay)
+	}
+	o.mu.Lock()
+	if o.stallAt > 0 && len(o.writes)+1 == o.stallAt {
+		o.mu.Unlock()
+		time.Sleep(o.stallFor)
+		o.mu.Lock()
+	}
+	o.writes = append(o.writes, cp)
+	o.seqs = append(o.seqs, o.clock.tick())
+	k := len(o.writes)
+	o.mu.Unlock()
+	if o.onWrite != nil {
+		o.onWrite(k)
+	}
+	return len(p), nil
+}
+
+func (o *recOut) snapshot() [][]byte {
+	o.mu.Lock()
+	defer o.mu.Unlock()
+	return append([][]byte(nil), o.writes...)
+}
+
+// recLogger delegates result logging to the real logger and records Error calls.
+type recLogger struct {
+	inner interface {
+		LogResults(ctx context.Context, results <-chan scan.Result)
+	}
+	clock   *rigClock
+	onError func(k int)
+	mu      sync.Mutex
+	errs    []error
+}
+
+func (l *recLogger) Error(err error) {
+	l.mu.Lock()
+	l.errs = append(l.errs, err)
+	k := len(l.errs)
+	l.mu.Unlock()
+	l.clock.tick()
+	if l.onError != nil {
+		l.onError(k)
+	}
+}
+
+func (l *recLogger) LogResults(ctx context.Context, results <-chan scan.Result) {
+	l.inner.LogResults(ctx, results)
+}
+
+func (l *recLogger) snapshot() []error {
+	l.mu.Lock()
+	defer l.mu.Unlock()
+	return append([]error(nil), l.errs...)
+}
+
+// engineSpy tees the completion signal so that the monitor sees when the engine
+// declared completion (startScanEngine keeps that channel to itself).
+type engineSpy struct {
+	scan.EngineResulter
+	clock      *rigClock
+	probe      func() int32 // in-flight probes/writes at the moment completion is observed
+	doneSeq    int64
+	doneT      time.Time
+	inflightAt int32
+	started    int32
+	sig        chan struct{}
+}
+
+func newEngineSpy(e scan.EngineResulter, clock *rigClock, probe func() int32) *engineSpy {
+	return &engineSpy{EngineResulter: e, clock: clock, probe: probe, sig: make(chan struct{})}
+}
+
+func (e *engineSpy) Start(ctx context.Context, r *scan.Range) (<-chan interface{}, <-chan error) {
+	atomic.AddInt32(&e.started, 1)
+	done, errc := e.EngineResulter.Start(ctx, r)
+	out := make(chan interface{})
+	go func() {
+		<-done
+		if e.probe != nil {
+			e.inflightAt = e.probe()
+		}
+		e.doneT = time.Now()
+		atomic.StoreInt64(&e.doneSeq, e.clock.tick())
+		close(e.sig)
+		close(out)
+	}()
+	return out, errc
+}
+
+// healthTicker measures the scheduling latency the monitor itself suffers.
+type healthTicker struct {
+	stop    chan struct{}
+	done    chan struct{}
+	maxOver time.Duration
+}
+
+func startHealth() *healthTicker {
+	h := &healthTicker{stop: make(chan struct{}), done: make(chan struct{})}
+	go func() {
+		defer close(h.done)
+		last := time.Now()
+		for {
+			select {
+			case <-h.stop:
+				return
+			default:
+			}
+			time.Sleep(time.Millisecond)
+			now := time.Now()
+			if over := now.Sub(last) - time.Millisecond; over > h.maxOver {
+				h.maxOver = over
+			}
+			last = now
+		}
+	}()
+	return h
+}
+
+func (h *healthTicker) end() time.Duration {
+	close(h.stop)
+	<-h.done
+	return h.maxOver
 }
